@@ -140,9 +140,10 @@ func (e *Encoder) writeObject(data interface{}) (int, error) {
 	vv = UnpackPtrValue(vv)
 
 	typ := vv.Type()
-	clsName, ok := e.nameMap[typ.Name()]
+	// the same name the extraction registers the type under: an unnamed struct type has no Name()
+	clsName, ok := e.nameMap[TypeName(typ)]
 	if !ok {
-		clsName = typ.Name()
+		clsName = TypeName(typ)
 		e.nameMap[clsName] = clsName
 	}
 	length, ok := e.existClassDef(clsName)
